@@ -15,6 +15,11 @@ CLAIMED = {
         text="TLC checks on MLMC.tla, for every loop history within bounds: level bound, return only after the 1% rule, process existence, termination (liveness, weak fairness, bounded environment). Allocation.tla: TLC checks the variance budget for all perfect-square variance/cost vectors (<= 3 levels) and rational rmse^2 with the variance/bias shares MEASURED on the code passed as constants, and that the two shares fit in rmse^2. The real allocation function and bias test are run on the same enumerated inputs and validated by TLC in exact rational arithmetic; recorded runs of the real engine (scripted, random and real Giles criteria) are validated against the loop monitor (exit only on criteria, allocation met within 1%, level bound).",
         note="Trusted: TLC, sensors, ScriptedCoupling. Known findings (recorded, not repaired): fall-out exit of the while loop (C06-fallout), zero-cost levels (C06-zerocost). Termination is for environments with bounded sample sizes. initial_level <= maximum_level assumed.",
         ref="5 (C06)"),
+    "C17": dict(
+        technique="TLA+ spec Product.tla (payoffs/underlyings as pure functions of integer paths + the objects' hidden state) model-checked by TLC over all evaluation histories; evaluation histories of real product objects trace-validated by TLC",
+        text="TLC explores every history (<= 4 steps) of update(representation) / evaluate(path) on one product object for every term x path of the model and checks Pure (value = pure function of terms and path) and the static identities (parity, spread/butterfly = call combinations >= 0, digitals sum to one, in+out = vanilla, average between extremes). Real objects of every payoff / underlying class are driven through all histories of length <= 3 (<= 4 thorough) plus longer random ones over integer paths, non-uniform time grids, identity and log representations; every returned value must equal notional * PureValue computed by TLC.",
+        note="Trusted: TLC, exact-integer sensor (values doubled). LookBack excluded (its process() raises unconditionally). Ties spot = strike under the log representation are not judged (exp(log x) rounding). Rainbow/Swaption/Cap/Ratchet/Bond/CDS payoffs are not modelled yet.",
+        ref="5 (C17)"),
 }
 
 NOT_APPLICABLE = {
